@@ -114,11 +114,7 @@ pub fn local_of(raw: u64) -> Option<usize> {
 
 /// u32::MAX stands for the largest Duration there is
 fn ms(d: u32) -> Duration {
-    if d == u32::MAX {
-        Duration::MAX
-    } else {
-        Duration::from_millis(d as u64)
-    }
+    crate::model::timeout_duration(d)
 }
 
 // ------------------------------------------------------------------ the scripted actor
@@ -363,6 +359,7 @@ impl Message<Msg> for SA {
     type Reply = Rep;
     async fn handle(&mut self, msg: Msg, actor_ref: &ActorRef<Self>) -> Rep {
         let (idx, owner) = (self.idx, self.owner);
+        let free = self.spec.free_handlers;
         Controlled::new(
             owner,
             msg.spec.entry_yield,
@@ -374,6 +371,7 @@ impl Message<Msg> for SA {
                 Rep { id: spec.id, seq, actor: idx }
             }),
         )
+        .free(free)
         .await
     }
     fn on_tell_result(result: &Rep, _actor_ref: &ActorRef<Self>) {
@@ -1246,7 +1244,7 @@ async fn exec_send(cx: &mut Cx<'_>, kind: SendKind, slot: u8, spec: &MsgSpec) {
     let (op, raw) = op_start(OpK::Send(kind), h.identity(), Some(spec.id), slot, route);
     if let Some(t) = kind.timeout() {
         if t != u32::MAX {
-            msched::register_deadline(t as u64);
+            msched::register_deadline(crate::model::timeout_ms_ceil(t));
         }
     }
     let res: Res = match (h, &spec.kind) {
